@@ -52,7 +52,7 @@ func ptrTo[T any](v T) *T { return &v }
 
 var kinds = []kind{
 	{"int", func(t *rapid.T) any {
-		return rapid.OneOf(rapid.Int(), rapid.SampledFrom([]int{0, -1, 1, math.MaxInt64, math.MinInt64, 1 << 53, 1<<53 + 1, -(1<<53 + 1)}), rapid.IntRange(-100, 100)).Draw(t, "int")
+		return rapid.OneOf(rapid.Int(), rapid.SampledFrom([]int{0, 0, 0, -1, 1, math.MaxInt64, math.MinInt64, 1 << 53, 1<<53 + 1, -(1<<53 + 1)}), rapid.IntRange(-100, 100)).Draw(t, "int")
 	}, true},
 	{"int8", func(t *rapid.T) any { return rapid.Int8().Draw(t, "int8") }, true},
 	{"int32", func(t *rapid.T) any { return rapid.Int32().Draw(t, "int32") }, true},
@@ -63,7 +63,7 @@ var kinds = []kind{
 		return rapid.OneOf(rapid.Uint64(), rapid.SampledFrom([]uint64{0, math.MaxUint64, 1 << 63})).Draw(t, "uint64")
 	}, true},
 	{"float64", func(t *rapid.T) any {
-		return rapid.OneOf(rapid.Float64Range(-1e6, 1e6), rapid.SampledFrom([]float64{0, 1.5, -2.25, 1e21, 1e-7, 3.14159, 100}), rapid.Float64()).Filter(func(f float64) bool { return !math.IsNaN(f) && !math.IsInf(f, 0) }).Draw(t, "float64")
+		return rapid.OneOf(rapid.Float64Range(-1e6, 1e6), rapid.SampledFrom([]float64{0, 0, 0, 1.5, -2.25, 1e21, 1e-7, 3.14159, 100}), rapid.Float64()).Filter(func(f float64) bool { return !math.IsNaN(f) && !math.IsInf(f, 0) }).Draw(t, "float64")
 	}, true},
 	{"float32", func(t *rapid.T) any { return float32(rapid.IntRange(-1000, 1000).Draw(t, "f32n")) / 8 }, true},
 	{"bool", func(t *rapid.T) any { return rapid.Bool().Draw(t, "bool") }, true},
@@ -219,7 +219,23 @@ func TestRoundTrip(t *testing.T) {
 			{Name: "V", Type: typ, Tag: `value:"${c17.key}"`},
 			{Name: "Q", Type: typ, Tag: `prop:"c17.key"`},
 		}
+		// a placeholder WITH a default: the default covers an absent key only, never a configured zero value
+		if d, ok := defaultFor[k.Name]; ok {
+			fields = append(fields, reflect.StructField{Name: "D", Type: typ, Tag: reflect.StructTag(`value:"${c17.key:` + d + `}"`)},
+				reflect.StructField{Name: "E", Type: typ, Tag: reflect.StructTag(`prop:"c17.key:` + d + `"`)})
+		}
 		obj := reflect.New(reflect.StructOf(fields))
+		// now and then the fields already hold defaults that the configuration must replace, not merge into
+		prefilled := rapid.IntRange(0, 2).Draw(t, "prefill") == 0
+		if prefilled {
+			if pv, ok := prefillFor(typ); ok {
+				for i := 0; i < obj.Elem().NumField(); i++ {
+					obj.Elem().Field(i).Set(pv())
+				}
+			} else {
+				prefilled = false
+			}
+		}
 		out := kit.RunApp(app.SetComponents(obj.Interface()), app.SetConfigLoader(loader.NewRawLoader(doc)))
 		desc := fmt.Sprintf("%s %#v", k.Name, norm(rv))
 		ev := rv
@@ -259,8 +275,89 @@ func TestRoundTrip(t *testing.T) {
 		if !reflect.DeepEqual(norm(q), norm(p)) {
 			t.Fatalf("C17: prop:\"k\" binds %#v where prefix:\"k\" binds %#v (%s)\nyaml:\n%s", norm(q), norm(p), k.Name, doc)
 		}
-		kit.Rec.Case(desc, nontrivial(rv), "kind/"+k.Name)
+		for i := 3; i < obj.Elem().NumField(); i++ {
+			if !reflect.DeepEqual(norm(obj.Elem().Field(i)), norm(p)) {
+				t.Fatalf("C17: %s binds %#v where prefix:\"k\" binds %#v: the key is configured, its default must not apply (%s)\nyaml:\n%s", obj.Elem().Type().Field(i).Tag, norm(obj.Elem().Field(i)), norm(p), k.Name, doc)
+			}
+		}
+		labels := []string{"kind/" + k.Name}
+		if prefilled {
+			labels = append(labels, "prefilled-fields")
+		}
+		if rv.IsZero() {
+			labels = append(labels, "configured-zero-value")
+		}
+		kit.Rec.Case(desc, nontrivial(rv) || prefilled || rv.IsZero(), labels...)
 	})
+}
+
+var defaultFor = map[string]string{"int": "3", "int8": "3", "int32": "3", "int64": "3", "uint": "3", "uint8": "3", "uint64": "3", "float64": "0.75", "float32": "0.75", "bool": "true", "string": "dflt"}
+
+// prefillFor: a constructor for "already holds something bigger" values of the type.
+func prefillFor(t reflect.Type) (func() reflect.Value, bool) {
+	switch t.Kind() {
+	case reflect.Slice:
+		return func() reflect.Value {
+			s := reflect.MakeSlice(t, 6, 6)
+			for i := 0; i < 6; i++ {
+				fill(s.Index(i))
+			}
+			return s
+		}, true
+	case reflect.Map:
+		if t.Key().Kind() != reflect.String {
+			return nil, false
+		}
+		return func() reflect.Value {
+			m := reflect.MakeMap(t)
+			for _, k := range []string{"zone", "tier", "zzz"} {
+				e := reflect.New(t.Elem()).Elem()
+				fill(e)
+				m.SetMapIndex(reflect.ValueOf(k), e)
+			}
+			return m
+		}, true
+	case reflect.Struct:
+		return func() reflect.Value { v := reflect.New(t).Elem(); fill(v); return v }, true
+	case reflect.Int, reflect.Int8, reflect.Int32, reflect.Int64, reflect.Uint, reflect.Uint8, reflect.Uint64, reflect.Float32, reflect.Float64, reflect.Bool, reflect.String:
+		return func() reflect.Value { v := reflect.New(t).Elem(); fill(v); return v }, true
+	}
+	return nil, false
+}
+
+func fill(v reflect.Value) {
+	switch v.Kind() {
+	case reflect.Int, reflect.Int8, reflect.Int32, reflect.Int64:
+		v.SetInt(77)
+	case reflect.Uint, reflect.Uint8, reflect.Uint64:
+		v.SetUint(77)
+	case reflect.Float32, reflect.Float64:
+		v.SetFloat(7.75)
+	case reflect.Bool:
+		v.SetBool(true)
+	case reflect.String:
+		v.SetString("prefilled")
+	case reflect.Slice:
+		s := reflect.MakeSlice(v.Type(), 5, 5)
+		for i := 0; i < 5; i++ {
+			fill(s.Index(i))
+		}
+		v.Set(s)
+	case reflect.Map:
+		if v.Type().Key().Kind() == reflect.String {
+			m := reflect.MakeMap(v.Type())
+			e := reflect.New(v.Type().Elem()).Elem()
+			fill(e)
+			m.SetMapIndex(reflect.ValueOf("old"), e)
+			v.Set(m)
+		}
+	case reflect.Struct:
+		for i := 0; i < v.NumField(); i++ {
+			if v.Field(i).CanSet() {
+				fill(v.Field(i))
+			}
+		}
+	}
 }
 
 // TestLiteral: a literal written in a value tag is bound as written.
